@@ -381,4 +381,21 @@ example : champions (10 : Int) [[12, 9, 11], [15, 9], [3]] = [9, 9, 3] := by dec
 
 end champions
 
+/-! ## declared data: every calibration of a history is fitted against the files of its own directory -/
+
+/-- **Own files.**  In a history of declarations made one after the other in one process — equal relative
+file names, different working directories — declaration `k` is fitted against the files found under *its*
+working directory, whatever was declared (and resolved) before it.  A functional model cannot express a
+cache that survives between declarations; that half is tied to the code by the harness's `workdirs` stream
+(2–3 calibrations with the same relative target / weight file names under different directories, through
+the `working_directory` option and through `os.chdir`). -/
+theorem declared_data_history_independent {α} (fs : String → Option α) (decls : List (String × List String))
+    (k : Nat) (h : k < decls.length) :
+    (decls.map (declaredData fs))[k]'(by simpa using h) = declaredData fs decls[k] := by
+  simp
+
+example : (([("/a", ["t.npy"]), ("/b", ["t.npy"])].map
+      (declaredData (fun p => if p = "/a/t.npy" then some 1 else if p = "/b/t.npy" then some 2 else none)))) =
+    [[some 1], [some 2]] := by decide
+
 end PyxelModel.C11
